@@ -405,6 +405,14 @@ def r7(ctx, facts):
             if sts and all(any(k[0] == "val" and k[1][1] and k[1][1][-1] == "is_token_aware" and in_set(val, {0}) for k, val in st.items()) for st in sts):
                 off_edges.append((u, v))
     stores = [bb for bb in rb.live_blocks for st in rb.stmts(bb) if st[0] == "A" and st[1][1] and any(isinstance(e, list) and e[0] == "f" and e[2] == "token_with_strategy" for e in st[1][1])]
+    # ... or the value is rebuilt with the field set to None (`ProcessedRoutingInfo { token_with_strategy: None, ..x }`)
+    for bb in sorted(rb.live_blocks):
+        for st in rb.stmts(bb):
+            if st[0] == "A" and st[2][0] == "agg" and st[2][1][0] == "adt" and st[2][1][1].endswith("ProcessedRoutingInfo") and "token_with_strategy" in (st[2][1][4] or []):
+                op = st[2][2][st[2][1][4].index("token_with_strategy")]
+                sd = rb.single_def(op[1][0]) if op[0] in ("c", "m") else None
+                if sd and sd[0] == "stmt" and sd[3][0] == "agg" and sd[3][1][0] == "adt" and sd[3][1][2] == "None":
+                    stores.append(bb)
     central = bool(off_edges) and bool(stores) and all(not (set(rb.exits) & dj.feasible_reach_edge(u, v, removed_nodes=stores)) for (u, v) in off_edges)
     r.instance("routing-info-clears-token-when-unaware", True, "central clearing in routing_info(): %s" % central, rb.span, nontrivial=False)
     for meth in ("pick", "fallback"):
